@@ -30,7 +30,7 @@ _whole.install(globals(), "C12",
                     "key with the model under vm_compute; every consecutive generation pair of real runs is checked by the monitor (size, best, every rank).",
                note="CMA-ES's constant lambda is an external contract measured on every trace; that consecutive generations are chained (so the component laws lift to histories) is C11.",
                technique="Coq theorems on pure selection models + vm_compute differential run against the real operators + monitors on recorded generations",
-               quick=160, thorough=4000, nontrivial=nontrivial, extra_checks=[comps], machine_replay=False,
+               front_ends=["popops"], quick=160, thorough=4000, nontrivial=nontrivial, extra_checks=[comps], machine_replay=False,
                forces=[(3, None), (1, {"objective_kind": "plateau"}), (1, {"maximize": True}), (1, {"objective_kind": "nanhole", "box": [[-5.0, 5.0], [-5.0, 5.0]], "dim": 2}),
                        (1, {"objective_kind": "nanhole", "box": [[-5.0, 5.0], [-5.0, 5.0]], "dim": 2, "height": 1, "engines": ["DE"]}),
                        (1, {"height": 2, "narrowing_boxes": True, "wrappers": "none", "box_style": "sym", "objective_kind": "funnel", "engines": ["SEA", "DE"], "dim": 2, "levels_patch": [{}, {"sample_std": 3.0}]}),
